@@ -11,9 +11,19 @@
 //!                                shared: thread th does make_writer(); write_all; drop)
 //!       ["park",th,secs,hex]     shared only: thread th starts the same write but is parked at yield point 1
 //!                                (after a successful advance_date, before refresh_writer) if it gets there
+//!       ["park0",th,secs,hex]    shared only, needs hook H1b: parked at yield point 0 (should_rollover said Some,
+//!                                advance_date not yet attempted) if it gets there
 //!       ["rel",th]               releases a parked thread and waits for its write to finish
 //!       ["race",[th..],secs,[hex..]]  shared only: the threads are released together by a barrier
 //! Every file creation is preceded by a sleep of gap_ms so that `created()` orders files as real time does.
+//!
+//!   h_rolling sweep <workdir> <out-file>   volume mode, descriptors on stdin (same language and output format as
+//!                                          ocaml/c16/main.ml, the extracted model):
+//!       B <rot m|h|d|n> <max|-> <prefix|-> <suffix|-> <t0> <first> <step> <count>
+//!     = an appender built at clock t0 in an empty directory (exclusive interface), then for i < count the two
+//!     writes at clocks first+i*step-1 (byte 'x') and first+i*step (byte 'y'); after each a line
+//!     "<clock> <name:size,...>" (sorted by name).  No sleeps: use max 1 or no limit (pruning among several
+//!     files needs distinguishable created() stamps).
 use serde_json::{json, Value};
 use std::cell::Cell;
 use std::io::{BufRead, Read, Write};
@@ -27,10 +37,10 @@ use tracing_subscriber::fmt::writer::MakeWriter;
 
 const MAXT: usize = 16;
 struct ParkState {
-    want: [bool; MAXT],
+    want: [u8; MAXT], // 0 = run through, 1 = park at yield point 1, 2 = park at yield point 0
     released: [bool; MAXT],
 }
-static PARK: Mutex<ParkState> = Mutex::new(ParkState { want: [false; MAXT], released: [false; MAXT] });
+static PARK: Mutex<ParkState> = Mutex::new(ParkState { want: [0; MAXT], released: [false; MAXT] });
 static CV: Condvar = Condvar::new();
 static YIELDS: AtomicU64 = AtomicU64::new(0);
 static EVENTS: Mutex<Option<mpsc::Sender<Event>>> = Mutex::new(None);
@@ -52,17 +62,19 @@ fn send_event(e: Event) {
 }
 
 fn yield_cb(id: u32) {
-    if id != 1 {
+    if id > 1 {
         return;
     }
-    YIELDS.fetch_add(1, Ordering::SeqCst);
+    if id == 1 {
+        YIELDS.fetch_add(1, Ordering::SeqCst); // = successful advance_date calls
+    }
     let th = TH.with(|c| c.get());
     if th >= MAXT {
         return;
     }
     let mut g = PARK.lock().unwrap();
-    if g.want[th] {
-        g.want[th] = false;
+    if (id == 1 && g.want[th] == 1) || (id == 0 && g.want[th] == 2) {
+        g.want[th] = 0;
         send_event(Event::Parked(th));
         while !g.released[th] {
             g = CV.wait(g).unwrap();
@@ -179,7 +191,7 @@ fn run_case(case: &Value, dir: &Path, gap: Duration) -> Value {
     *EVENTS.lock().unwrap() = Some(etx.clone());
     {
         let mut g = PARK.lock().unwrap();
-        g.want = [false; MAXT];
+        g.want = [0; MAXT];
         g.released = [false; MAXT];
     }
     let mut txs = Vec::new();
@@ -224,10 +236,10 @@ fn run_case(case: &Value, dir: &Path, gap: Duration) -> Value {
         let mut res = Vec::new();
         let mut parked = false;
         match kind {
-            "w" | "park" => {
+            "w" | "park" | "park0" => {
                 let th = op[1].as_u64().unwrap() as usize % nth;
-                if kind == "park" {
-                    PARK.lock().unwrap().want[th] = true;
+                if kind != "w" {
+                    PARK.lock().unwrap().want[th] = if kind == "park" { 1 } else { 2 };
                 }
                 txs[th].send(Cmd::Write { t: op[2].as_i64().unwrap(), buf: unhex(op[3].as_str().unwrap()), barrier: None }).unwrap();
                 match erx.recv_timeout(wait) {
@@ -236,7 +248,7 @@ fn run_case(case: &Value, dir: &Path, gap: Duration) -> Value {
                         parked_now[th] = true;
                     }
                     Ok(Event::Done(_, r)) => {
-                        PARK.lock().unwrap().want[th] = false;
+                        PARK.lock().unwrap().want[th] = 0;
                         res.push(r.err());
                     }
                     Err(_) => fatal = Some(format!("timeout in op {}", op)),
@@ -339,10 +351,99 @@ fn probe(dir: &Path, n: usize) {
     );
 }
 
+fn sweep_listing(dir: &Path, out: &mut String) {
+    let mut v: Vec<(String, u64)> = Vec::new();
+    if let Ok(rd) = std::fs::read_dir(dir) {
+        for e in rd.flatten() {
+            let sz = e.metadata().map(|m| m.len()).unwrap_or(u64::MAX);
+            v.push((e.file_name().to_string_lossy().into_owned(), sz));
+        }
+    }
+    v.sort();
+    for (i, (n, sz)) in v.iter().enumerate() {
+        if i > 0 {
+            out.push(',');
+        }
+        out.push_str(n);
+        out.push(':');
+        out.push_str(&sz.to_string());
+    }
+}
+
+fn sweep(work: &Path, outpath: &Path) {
+    let mut out = std::io::BufWriter::with_capacity(1 << 20, std::fs::File::create(outpath).unwrap());
+    let stdin = std::io::stdin();
+    let mut n = 0u64;
+    let mut line_buf = String::new();
+    for line in stdin.lock().lines() {
+        let line = line.unwrap();
+        let f: Vec<&str> = line.split_whitespace().collect();
+        if f.is_empty() {
+            continue;
+        }
+        if f.len() != 9 || f[0] != "B" {
+            writeln!(out, "!bad descriptor: {}", line).unwrap();
+            continue;
+        }
+        n += 1;
+        let dir = work.join(format!("s{}_{}", std::process::id(), n));
+        let _ = std::fs::remove_dir_all(&dir);
+        std::fs::create_dir_all(&dir).unwrap();
+        let num = |s: &str| s.parse::<i64>().unwrap();
+        let (t0, first, step, count) = (num(f[5]), num(f[6]), num(f[7]), num(f[8]));
+        let mut b = RollingFileAppender::builder().rotation(rotation(f[1]));
+        if f[2] != "-" {
+            b = b.max_log_files(f[2].parse().unwrap());
+        }
+        if f[3] != "-" {
+            b = b.filename_prefix(f[3]);
+        }
+        if f[4] != "-" {
+            b = b.filename_suffix(f[4]);
+        }
+        writeln!(out, "# {}", f.join(" ")).unwrap();
+        __verif::set_thread_clock(Some((t0, 0)));
+        let r = catch_unwind(AssertUnwindSafe(|| {
+            let mut app = match b.build(&dir) {
+                Ok(a) => a,
+                Err(e) => {
+                    writeln!(out, "!build: {}", e).unwrap();
+                    return;
+                }
+            };
+            line_buf.clear();
+            sweep_listing(&dir, &mut line_buf);
+            writeln!(out, "{} {}", t0, line_buf).unwrap();
+            for i in 0..count {
+                let bd = first + i * step;
+                for (t, byte) in [(bd - 1, b"x"), (bd, b"y")] {
+                    __verif::set_thread_clock(Some((t, 0)));
+                    if let Err(e) = app.write_all(byte) {
+                        writeln!(out, "!write at {}: {}", t, e).unwrap();
+                    }
+                    line_buf.clear();
+                    sweep_listing(&dir, &mut line_buf);
+                    writeln!(out, "{} {}", t, line_buf).unwrap();
+                }
+            }
+        }));
+        if let Err(p) = r {
+            writeln!(out, "!panic: {}", panic_msg(p)).unwrap();
+        }
+        let _ = std::fs::remove_dir_all(&dir);
+    }
+    out.flush().unwrap();
+}
+
 fn main() {
     let args: Vec<String> = std::env::args().collect();
     let mode = args.get(1).map(|s| s.as_str()).unwrap_or("run");
     let work = PathBuf::from(args.get(2).cloned().unwrap_or_else(|| ".".into()));
+    if mode == "sweep" {
+        std::panic::set_hook(Box::new(|_| {}));
+        sweep(&work, &PathBuf::from(args.get(3).cloned().unwrap_or_else(|| "sweep.out".into())));
+        return;
+    }
     if mode == "probe" {
         probe(&work.join(format!("probe_{}", std::process::id())), args.get(3).and_then(|s| s.parse().ok()).unwrap_or(2000));
         return;
